@@ -78,6 +78,9 @@ type Knobs struct {
 	PEarlyRecreate             float64 // workload controllers: a terminating pod is replaced by a pending one at once
 	// DRA (see dra.go): probability that the case contains resource.k8s.io objects; 0 = no extra draws, no objects
 	PDRA float64
+	// PDRAGpu (dra_gpu.go): share of the DRA cases that also carry a GPU device class, GPU-driver ResourceSlices on
+	// nodes without device-plugin GPUs and pods whose GPUs come from a ResourceClaim; 0 = no extra draws
+	PDRAGpu float64
 	// PGpuSpread > 0 replaces the generic choice of the GPU placement strategy: spread (plugin gpuspread: whole devices
 	// are preferred to shared ones) with this probability, binpack otherwise
 	PGpuSpread float64
@@ -88,6 +91,9 @@ type Knobs struct {
 }
 
 var allActions = "allocate, consolidation, reclaim, preempt, stalegangeviction"
+
+// draGpuShare: share of the DRA cases of the accounting profile (C13/C14) with GPU-class claims.
+const draGpuShare = 0.8
 
 // draAccounting: share of C13/C14 cases with ResourceClaims (VERIF_DRA_ACCOUNTING=0 switches them off).
 var draAccounting = func() float64 {
@@ -222,6 +228,7 @@ func Profile(name string) Knobs {
 		k.NoEvictCallFaults = true
 		k.PTopology = 0.1
 		k.PDRA = draAccounting // DRA (dra.go)
+		k.PDRAGpu = draGpuShare // DRA GPU-class claims (dra_gpu.go)
 		k.PNodeGone = 0.08
 	case "mixed":
 	}
